@@ -216,6 +216,11 @@ func (w *world) send(m msg) (label string, err error) {
 		}
 		if m.Kind == "exchange-unproved-secret" {
 			body = m5(w.ctrl, k, nil, k)
+			// the same ephemeral secret may have been proved on this connection in the meantime (same salt and B,
+			// same client secret): then this is simply the genuine key exchange
+			if cs.proved && cs.srp != nil && cs.srp.K != nil && bytes.Equal(cs.srp.K, k) {
+				expectStore = true
+			}
 		} else {
 			body = m5(w.ctrl, nil, make([]byte, 32), k)
 		}
